@@ -577,7 +577,8 @@ def solver_cases(rep, rng, n):
                 break
 
 
-TEXT_FAILS = ['fault:push:unsupported', 'fault:pop:unsupported',
+TEXT_FAILS = ['fault:declare-fun2:error', 'fault:declare-fun3:unsupported',
+              'fault:push:unsupported', 'fault:pop:unsupported',
               'fault:reset-assertions:unsupported', 'fault:assert:error',
               'fault:declare-fun:error', 'fault:check-sat:error',
               'fault:push:error', 'fault:pop:error',
@@ -606,6 +607,9 @@ def text_solver_cases(rep, rng, n):
         plan = [rng.choice(ops) for _ in range(rng.randint(1, 7))]
         after = [rng.choice(ops + ['get_value', 'solve', 'pop', 'assert_new'])
                  for _ in range(rng.randint(4, 9))] + ['solve']
+        if 'declare-fun' in kind:
+            after.insert(rng.randrange(3), 'retry')
+            after.insert(rng.randrange(3, len(after)), 'retry')
         at = rng.randrange(len(plan) + 1)
         res = {}
         failed = None
@@ -628,6 +632,9 @@ def text_solver_cases(rep, rng, n):
             nnew = [0]
             sat = [False]
             live = [set()]
+            rsyms = [mgr.Symbol('c15_r%d' % i) for i in range(3)]
+            retry_formula = mgr.Or(rsyms[0], mgr.And(rsyms[1],
+                                                     mgr.Not(rsyms[2])))
 
             def do(op):
                 k[0] += 1
@@ -658,6 +665,10 @@ def text_solver_cases(rep, rng, n):
                     depth[0] = 0
                     del live[1:]
                     live[0].clear()
+                elif op == 'retry':
+                    # the formula of the refused call (in the twin without
+                    # the refusal: asserted for the first time)
+                    solver.add_assertion(retry_formula)
                 elif op == 'solve':
                     r = solver.solve()
                     sat[0] = bool(r)
@@ -687,11 +698,19 @@ def text_solver_cases(rep, rng, n):
                                 mgr.Or(syms[0], syms[3])),
                             'declare-fun': lambda: solver.add_assertion(
                                 mgr.Symbol('c15_never_declared')),
+                            # the second / third declaration of one call
+                            'declare-fun2': lambda: solver.add_assertion(
+                                retry_formula),
+                            'declare-fun3': lambda: solver.add_assertion(
+                                retry_formula),
                             'check-sat': lambda: solver.solve()}[head]
                     if head == 'pop' and depth[0] == 0:
                         return None
                     with open(fault, 'w') as f:
-                        json.dump({'head': head, 'reply': 'unsupported'
+                        json.dump({'head': head.rstrip('23'),
+                                   'skip': int(head[-1]) - 1
+                                   if head[-1] in '23' else 0,
+                                   'reply': 'unsupported'
                                    if reply == 'unsupported' else
                                    '(error "injected")'}, f)
                     try:
